@@ -21,7 +21,7 @@ CASE_TIMEOUT = {'quick': 20, 'thorough': 120}
 def floors(tier):
     return {'distinct_nontrivial': 1500 if tier == 'quick' else 80000, 'generic_sw': 500, 'generic_proj': 500,
             'generic_normsq': 200, 'own_composition_compared': 1200, 'blades_dropped_by_presimplification': 200,
-            'cse_false_cases': 100}
+            'cse_false_cases': 100, 'graded_mode_cases': 100}
 
 
 def plan(tier, seed):
@@ -47,6 +47,8 @@ def plan(tier, seed):
             U += u(gen.random_custom_cfg(rng, rng.choice((2, 3, 3, 4))), 'sparse', 1, count=30, cap=4)
         for c in gen.NAMED[:2]:
             U += u(c, 'sparse', 1, count=10, cap=4)
+        for c in ({'p': 2, 'q': 0, 'r': 1}, {'p': 1, 'q': 0, 'r': 1}, {'p': 1, 'q': 1, 'r': 1}, {'p': 3, 'q': 0, 'r': 0}, {'p': 2, 'q': 0, 'r': 0}):
+            U += u(dict(c, opts={'graded': True}), 'gradeblocks', 1, count=30, cap=7)
         nshards = 16
     else:
         for c in gen.sig_orderings(1, 1):
@@ -67,6 +69,8 @@ def plan(tier, seed):
             U += u(gen.random_custom_cfg(rng, rng.choice((2, 3, 3, 4, 4))), 'sparse', 1, count=60, cap=4)
         for c in gen.NAMED:
             U += u(c, 'sparse', 2, count=25, cap=3 if c['named'] == 'STAP' else 4)
+        for c in gen.pqr_all(2, 3):
+            U += u(dict(c, opts={'graded': True}), 'gradeblocks', 1, count=80, cap=7)
         nshards = 64
     rng.shuffle(U)
     return [{'units': part} for part in gen.split(U, nshards)]
@@ -103,6 +107,8 @@ def run_shard(shard, ctx):
                 ctx.count('generic_' + op)
                 if cfg.get('opts', {}).get('cse') is False:
                     ctx.count('cse_false_cases')
+                if cfg.get('opts', {}).get('graded'):
+                    ctx.count('graded_mode_cases')
                 ctx.case(cid)
                 if ctx.evaluations % 200 == 1:
                     ctx.sample({'config': name, 'op': op, 'keys_in': [list(k) for k in keysets], 'keys_out': list(r.keys())})
